@@ -1,64 +1,33 @@
 _ANCH = ["src/hgraph/runtime/reduce_node.cpp", "include/hgraph/runtime/reduce_node.h", "src/hgraph/runtime/reduce_output_binding.h",
          "include/hgraph/lib/std/operators/impl/higher_order_impl.h", "src/hgraph/lib/std/operators/higher_order_impl.cpp",
          "include/hgraph/runtime/nested_bindings.h"]
-_SRC = "harness/C11_reduce.cpp"
-_COMMON = ("every element value and every zero value is an unconstrained symbolic int64 (combiner = wrapping add sub-graph); zero modes {no zero, "
-           "constant zero ticking in cycle 0, zero re-ticking with a fresh value every cycle}; checked after every engine cycle")
-_OUT = ("non-commutative / non-associative combiners; element schemas other than TS<int>; the lifted-kernel fast path (wire_lifted_reduce_tsl, "
-        "evaluate_lifted_combiner: needs the operator registry); ordered_reduce_node and reduce_tsl_wire (ordered form, needs the 'default' operator); "
-        "a zero that is still invalid; collection input re-pointing (REF sources); combiner graphs that schedule themselves; pause/resume (mesh)")
-_TSD_REACH = ["end", "key_removed", "removed_while_lower_key_live", "key_removed_and_readded_same_cycle", "shrunk_to_empty", "regrown_after_empty",
-              "three_live", "singleton_with_zero", "empty_again_with_zero"]
-
+# configuration tuples {COLL (0 TSD, 1 fixed TSL, 2 dynamic TSL), NKEYS, BULK, NCYC, EXTRA_OPS, ORDERS}; one binary, configuration enumerated first
+_QUICK = "{0,3,0,3,0,2},{0,2,4,3,0,1},{0,2,0,3,1,1},{1,3,2,3,0,1},{2,3,2,3,0,1}"
+_THOROUGH = "{0,3,0,4,0,1},{0,2,7,3,0,1},{0,1,8,4,0,1},{0,2,0,4,1,1},{1,4,5,3,0,2},{2,4,5,3,0,2}"
 reg("C11",
-    name="C11_reduce_tsd", src=_SRC, anchor_files=_ANCH,
-    quick=dict(defs=dict(COLL=0, NKEYS=3, BULK=0, NCYC=3, ZMODES=3, ORDERS=2, EXTRA_OPS=0), symx=dict(shards=16, **{"max-wall": 900})),
-    thorough=dict(defs=dict(COLL=0, NKEYS=3, BULK=0, NCYC=4, ZMODES=3, ORDERS=1, EXTRA_OPS=0), symx=dict(shards=16, **{"max-wall": 3000, "shard-depth": 8})),
-    reach=_TSD_REACH,
-    bounds="TSD<int,TS<int>> source over keys {0..NKEYS-1}, NCYC engine cycles; in every cycle every key independently does one of {nothing, set (add or update), "
-           "remove, remove+re-add in the same cycle} (all combinations enumerated), keys applied in ascending or descending order (ORDERS); " + _COMMON,
-    outside=_OUT + "; more than NKEYS keys / NCYC cycles (see C11_reduce_tsd_grow for growth over capacity boundaries)",
-    )
-reg("C11",
-    name="C11_reduce_tsd_grow", src=_SRC, anchor_files=_ANCH,
-    quick=dict(defs=dict(COLL=0, NKEYS=2, BULK=4, NCYC=3, ZMODES=3, ORDERS=1, EXTRA_OPS=0), symx=dict(shards=16, **{"max-wall": 900})),
-    thorough=dict(defs=dict(COLL=0, NKEYS=2, BULK=7, NCYC=4, ZMODES=3, ORDERS=1, EXTRA_OPS=0), symx=dict(shards=16, **{"max-wall": 3000, "shard-depth": 8})),
-    reach=_TSD_REACH[:2] + _TSD_REACH[3:6] + ["five_live", "singleton_with_zero", "empty_again_with_zero"],
-    bounds="as C11_reduce_tsd over NKEYS individually scripted keys plus a group of BULK further keys that is added / updated / removed as a unit, so that the "
-           "combiner tree grows over its capacity boundaries 2 -> 4 -> 8 (-> 16 in thorough: 9 keys) leaves (bank swap), shrinks to empty and regrows; " + _COMMON,
-    outside=_OUT,
-    )
-reg("C11",
-    name="C11_reduce_tsd_phantom", src=_SRC, anchor_files=_ANCH,
-    quick=dict(defs=dict(COLL=0, NKEYS=2, BULK=0, NCYC=3, ZMODES=3, ORDERS=1, EXTRA_OPS=1), symx=dict(shards=16, **{"max-wall": 900})),
-    thorough=dict(defs=dict(COLL=0, NKEYS=3, BULK=0, NCYC=3, ZMODES=3, ORDERS=1, EXTRA_OPS=1), symx=dict(shards=16, **{"max-wall": 3000, "shard-depth": 8})),
-    reach=["end", "phantom_key", "key_removed", "singleton_with_zero"],
-    bounds="as C11_reduce_tsd, and an absent key may also be created WITHOUT a value (a live key whose element is invalid must not take part in the fold) or be "
-           "added and removed within one cycle; " + _COMMON,
-    outside=_OUT,
-    )
-reg("C11",
-    name="C11_reduce_tsl", src=_SRC, anchor_files=_ANCH,
-    quick=dict(defs=dict(COLL=1, NKEYS=3, BULK=2, NCYC=3, ZMODES=3, ORDERS=1), symx=dict(shards=16, **{"max-wall": 900})),
-    thorough=dict(defs=dict(COLL=1, NKEYS=4, BULK=5, NCYC=3, ZMODES=3, ORDERS=2), symx=dict(shards=16, **{"max-wall": 3000, "shard-depth": 8})),
-    reach=["end", "three_live", "five_live", "singleton_with_zero"],
-    bounds="fixed TSL<TS<int>, NKEYS+BULK> source; in every cycle every one of the first NKEYS elements independently ticks or not, the remaining BULK "
-           "elements tick together or not (all combinations enumerated): elements become valid in every order and are updated afterwards; " + _COMMON,
-    outside=_OUT + "; list elements cannot become invalid again (no public API), so shrinking is covered for TSD only",
-    )
-reg("C11",
-    name="C11_reduce_dtsl", src=_SRC, anchor_files=_ANCH,
-    quick=dict(defs=dict(COLL=2, NKEYS=3, BULK=2, NCYC=3, ZMODES=3, ORDERS=1), symx=dict(shards=16, **{"max-wall": 900})),
-    thorough=dict(defs=dict(COLL=2, NKEYS=4, BULK=5, NCYC=3, ZMODES=3, ORDERS=2), symx=dict(shards=16, **{"max-wall": 3000, "shard-depth": 8})),
-    reach=["end", "three_live", "five_live", "singleton_with_zero"],
-    bounds="dynamic TSL<TS<int>> source that grows on demand (an element index beyond the current size extends the list, leaving invalid elements in between); "
-           "tick pattern as C11_reduce_tsl; " + _COMMON,
-    outside=_OUT,
+    name="C11_reduce", src="harness/C11_reduce.cpp", anchor_files=_ANCH,
+    quick=dict(defs=dict(CONFIGS=_QUICK, TSLN=5, ZMODES=3), symx=dict(shards=16, **{"max-wall": 900})),
+    thorough=dict(defs=dict(CONFIGS=_THOROUGH, TSLN=9, ZMODES=3), symx=dict(shards=16, **{"max-wall": 3000, "shard-depth": 8})),
+    reach=["end", "key_removed", "removed_while_lower_key_live", "key_removed_and_readded_same_cycle", "shrunk_to_empty", "regrown_after_empty",
+           "three_live", "five_live", "singleton_with_zero", "empty_again_with_zero", "phantom_key"],
+    bounds="wire_reduce_tsd -> reduce_node with a wrapping-add combiner sub-graph; every element value and every zero value an unconstrained symbolic int64; "
+           "zero modes {no zero, constant zero ticking in cycle 0, zero re-ticking with a fresh value every cycle}; result, validity and the value last "
+           "delivered to a consumer checked after every engine cycle.  Enumerated configurations {collection, NKEYS, BULK, NCYC, EXTRA_OPS, ORDERS}: "
+           "quick " + _QUICK + "; thorough " + _THOROUGH + ".  TSD<int,TS<int>> (collection 0): in each of NCYC cycles every one of NKEYS keys "
+           "independently does {nothing, set (add/update), remove, erase+set in one cycle}, with EXTRA_OPS also {create the key without a value, add+remove "
+           "in one cycle}; a group of BULK further keys is added/updated/removed as a unit (tree growth over the capacity boundaries 2->4->8(->16), shrink "
+           "to empty, regrow); keys applied ascending and (ORDERS=2) descending.  Fixed TSL<TS<int>,N> (1) and dynamic TSL<TS<int>> (2): every element "
+           "independently ticks or not per cycle (elements become valid in every order, then update; the dynamic list grows on demand leaving invalid gaps)",
+    outside="non-commutative / non-associative combiners; element schemas other than TS<int>; the lifted-kernel fast path (wire_lifted_reduce_tsl / "
+            "evaluate_lifted_combiner: a LiftedKernel needs the operator registry); ordered_reduce_node and reduce_tsl_wire (the ORDERED form with its "
+            "different zero contract; needs the 'default' operator); a zero that is not yet valid; re-pointed (REF) collection or zero sources; combiner "
+            "graphs that schedule themselves; pause/resume under mesh; list elements becoming invalid again (no public API)",
+    assumptions=["erase+set of a live key within one engine cycle is netted by the source dictionary (documented slot protocol): the reduce node sees an update"],
     )
 
 META = dict(
     level="bounded symbolic model checking of the associative reduce runtime (wire_reduce_tsd -> reduce_node: leaf reconciliation, incremental combiner tree, "
           "bank swap on growth, zero/no-zero contract, root publication) with all element and zero values symbolic: the result is proven equal to the "
-          "fold of exactly the live valid elements for every enumerated add/update/remove history",
+          "fold of exactly the live valid elements for every enumerated add/update/remove history over TSD, fixed TSL and dynamic TSL",
     note="bounds in evidence coverage.harnesses[*].bounds; see notes/C11.md",
 )
